@@ -489,6 +489,137 @@ func selectDepth(a, i *Term, budget int) *Term {
 	return mk("select", s, cur, i)
 }
 
+// leafTag names the primitive cell type of a leaf; cells of different tags never overlap
+// in a type-safe Go program (no unsafe), which lets reads skip unrelated writes.
+func leafTag(lf Leaf) string {
+	switch lf.K {
+	case LInt:
+		return fmt.Sprintf("i:%d", lf.B.Kind())
+	case LBool:
+		return "bool"
+	case LObj:
+		if lf.Str {
+			return "sobj"
+		}
+		return "obj"
+	case LOff:
+		return "off"
+	case LLen:
+		return "len"
+	case LCap:
+		return "cap"
+	}
+	return ""
+}
+
+// readCell reads cell idx of object obj from memory m, skipping writes of other cell types.
+func readCell(m, obj, idx *Term, tag string) *Term {
+	cur := m
+	if tag != "" {
+		cur = readThrough(m, obj, tag, 0)
+	}
+	return selectTagged(Select(cur, obj), idx, tag)
+}
+
+// readThrough returns an earlier memory version that holds the same value for every cell of
+// type `tag` in object obj (writes to provably different objects and writes of other cell
+// types are skipped).
+func readThrough(m, obj *Term, tag string, depth int) *Term {
+	cur := m
+	for steps := 0; steps < 400 && depth < 40; steps++ {
+		c := expandDef(cur)
+		if c.Op == "ite" && c.Sort == SMem {
+			r1 := readThrough(c.Args[1], obj, tag, depth+1)
+			r2 := readThrough(c.Args[2], obj, tag, depth+1)
+			if r1.Key() == r2.Key() {
+				cur = r1
+				continue
+			}
+			if r1 != c.Args[1] || r2 != c.Args[2] {
+				return Ite(c.Args[0], r1, r2)
+			}
+			break
+		}
+		if c.Op != "store" || c.Sort != SMem {
+			break
+		}
+		o, arr := c.Args[1], c.Args[2]
+		if sameIdx(o, obj) {
+			break
+		}
+		if distinctIdx(o, obj) {
+			cur = c.Args[0]
+			continue
+		}
+		// aliasing unknown: both cases must lead to the same earlier memory
+		mb, ob, ok := bottomOtherTags(arr, tag)
+		if !ok || !sameIdx(ob, o) {
+			break
+		}
+		c1 := readThrough(mb, obj, tag, depth+1)
+		c2 := readThrough(c.Args[0], obj, tag, depth+1)
+		if c1.Key() == c2.Key() {
+			cur = c1
+			continue
+		}
+		break
+	}
+	return cur
+}
+
+// bottomOtherTags: arr = select(mb, ob) updated only by stores of cell types other than tag.
+func bottomOtherTags(arr *Term, tag string) (mb, ob *Term, ok bool) {
+	a := expandDef(arr)
+	for steps := 0; steps < 4096; steps++ {
+		if a.Op == "store" {
+			if a.Name == "" || a.Name == tag {
+				return nil, nil, false
+			}
+			a = expandDef(a.Args[0])
+			continue
+		}
+		if a.Op == "select" && a.Sort == SArr {
+			return a.Args[0], a.Args[1], true
+		}
+		return nil, nil, false
+	}
+	return nil, nil, false
+}
+
+func sameMem(a, b *Term) bool {
+	if a == b || a.Key() == b.Key() {
+		return true
+	}
+	return expandDef(a).Key() == expandDef(b).Key()
+}
+
+// selectTagged: select on a cell array, skipping stores tagged with another cell type.
+func selectTagged(a, i *Term, tag string) *Term {
+	if tag == "" {
+		return Select(a, i)
+	}
+	cur := a
+	for steps := 0; steps < 4096; steps++ {
+		c := expandDef(cur)
+		if c.Op == "store" && c.Sort == SArr {
+			if c.Name != "" && c.Name != tag {
+				cur = c.Args[0]
+				continue
+			}
+			j := c.Args[1]
+			if j.Key() == i.Key() || sameIdx(i, j) {
+				return c.Args[2]
+			}
+			if distinctIdx(i, j) {
+				cur = c.Args[0]
+				continue
+			}
+		}
+		break
+	}
+	return Select(cur, i)
+}
+
 func isRawSelect(t, arr *Term) bool {
 	return t.Op == "select" && t.Args[0] == arr
 }
